@@ -145,6 +145,25 @@ func dirHash(dir string) string {
 	return hex.EncodeToString(h.Sum(nil)[:10])
 }
 
+// fullDirHash hashes every file of a directory in full (journal and WAL
+// content included). The journal nonce is random per transaction, so the
+// value is only meaningful within one run (deduplication), never reported.
+func fullDirHash(dir string) string {
+	ents, _ := os.ReadDir(dir)
+	var names []string
+	for _, e := range ents {
+		names = append(names, e.Name())
+	}
+	sort.Strings(names)
+	h := sha256.New()
+	for _, n := range names {
+		b, _ := os.ReadFile(filepath.Join(dir, n))
+		fmt.Fprintf(h, "%s:%d:", n, len(b))
+		h.Write(b)
+	}
+	return hex.EncodeToString(h.Sum(nil)[:10])
+}
+
 // ledgerInvariants checks the unconditional structural invariants on a
 // database: no negative balance, recorded height equals the highest recorded
 // height row, height rows contiguous from first.
